@@ -282,7 +282,7 @@ func negatives(c *engine.Ctx, r *rand.Rand, et int32, key []byte, evals *int64) 
 			mkW := func() gssapi.WrapToken {
 				wt := gssapi.WrapToken{Flags: flags, EC: uint16(p.CksumLen), SndSeqNum: seq, Payload: append([]byte{}, payload...)}
 				if err := wt.SetCheckSum(gk, usage); err != nil {
-					engine.Fatal("SetCheckSum: %v", err)
+					engine.FailValid("WrapToken.SetCheckSum", err)
 				}
 				return wt
 			}
@@ -380,7 +380,7 @@ func negatives(c *engine.Ctx, r *rand.Rand, et int32, key []byte, evals *int64) 
 				cc.Kind, cc.Mut = "MIC", mut
 				mt := gssapi.MICToken{Flags: flags, SndSeqNum: seq, Payload: append([]byte{}, payload...)}
 				if err := mt.SetChecksum(gk, 25); err != nil {
-					engine.Fatal("SetChecksum: %v", err)
+					engine.FailValid("MICToken.SetChecksum", err)
 				}
 				f(&mt)
 				var ok bool
